@@ -34,19 +34,22 @@ Merge(calls, i, pending, acc) ==
                        ELSE Append(acc, <<"bad-retry", want>>))
 Ops(calls) == Merge(calls, 1, 0, <<>>)
 
+\* ev.hard > 0: a read or a seek of the reader failed for good (not a transient error): the decode must report an error -
+\* not panic, not produce a frame from what it had
 EvDiff(ev) ==
-     (IF ev.out = ev.plain THEN {} ELSE {"reader_differs"})
+     (IF ev.hard > 0 THEN (IF ev.out = [ok |-> 0] \/ ev.outcome = "panic" THEN {} ELSE {"hard_error_swallowed"})
+      ELSE IF ev.out = ev.plain THEN {} ELSE {"reader_differs"})
   \cup (IF ev.again = ev.plain THEN {} ELSE {"impure"})
   \cup (IF ev.outcome = "panic" THEN {"panic"} ELSE {})
 
-Drift(ev) == "ref" \in DOMAIN ev /\ Ops(ev.calls) # Ops(ev.ref)
+Drift(ev) == "ref" \in DOMAIN ev /\ ev.hard = 0 /\ Ops(ev.calls) # Ops(ev.ref)
 
 Judge(i) ==
   LET ev == Rec[i]
       d == EvDiff(ev)
       \* the slice decode and the reader decode themselves, judged for their own properties (a wrong checksum on the
       \* reader path is C03's whether or not the slice path agrees)
-      own == Diff(ev.plain, ev.bytes) \cup (IF "ok" \in DOMAIN ev.out /\ ev.out.ok \in {0, 1} THEN Diff(ev.out, ev.bytes) ELSE {})
+      own == Diff(ev.plain, ev.bytes) \cup (IF ev.hard = 0 /\ "ok" \in DOMAIN ev.out /\ ev.out.ok \in {0, 1} THEN Diff(ev.out, ev.bytes) ELSE {})
   IN /\ (IF d = {} THEN TRUE ELSE PrintT(<<"VERDICT", i, "reader|" \o ev.tag \o "|" \o Class(ev.bytes), {<<"C19", f>> : f \in d}>>))
      /\ (IF own = {} THEN TRUE ELSE PrintT(<<"VERDICT", i, Class(ev.bytes), {<<Owner(f), f>> : f \in own}>>))
      /\ (IF Drift(ev) THEN PrintT(<<"INFO", "MODEL-DRIFT", i, ev.tag>>) ELSE TRUE)
